@@ -461,6 +461,123 @@ def check_replacement(ctx):
     ctx.add('replacement', ev, nt)
 
 
+def check_backend_switch(ctx):
+    """All histories of {property query, switch to REFPROP (not installed here), switch back to CoolProp} on ONE adsorbate object.
+
+    Whatever happened before, once the CoolProp backend is selected again a calculated property is what a fresh object gives.  While the
+    unavailable backend is selected a query returns the user-supplied value or refuses with CalculationError (never another exception).
+    """
+    import pygaps
+    from pygaps.utilities import coolprop_utilities as cu
+    ev = nt = 0
+    depth = 4 if ctx.quick else 6
+    kinds = {
+        'shipped nitrogen': lambda: pygaps.Adsorbate.find('N2'),
+        'custom, backend-linked, one user value': lambda: pygaps.Adsorbate('c20-sw', backend_name='CarbonDioxide', saturation_pressure=6.0e6),
+        'adsorbate of an isotherm': lambda: pygaps.PointIsotherm(pressure=[0.1, 0.5, 1.0], loading=[1.0, 2.0, 2.5], material='c20', adsorbate='CO2', temperature=250.0,
+                                                                  pressure_mode='absolute', pressure_unit='bar', loading_basis='molar', loading_unit='mmol',
+                                                                  material_basis='mass', material_unit='g', temperature_unit='K').adsorbate,
+    }
+    queries = {'q1': ('saturation_pressure', (100.0 if True else 0,)), 'q2': ('liquid_density', (0,)), 'q3': ('molar_mass', ())}
+    base_state = {}
+    try:
+        for kname, mk in kinds.items():
+            T = 100.0 if 'nitrogen' in kname else 250.0
+            cu.backend_use_coolprop()
+            fresh = mk()
+            if hasattr(fresh, '_state'):
+                fresh._state, fresh._backend_mode = None, None
+            want = {'q1': fresh.saturation_pressure(T), 'q2': fresh.liquid_density(T), 'q3': fresh.molar_mass()}
+            for hist in itertools.product(('q1', 'q2', 'q3', 'R', 'C'), repeat=depth):
+                if 'R' not in hist:
+                    continue
+                cu.backend_use_coolprop()
+                a = mk()
+                a._state, a._backend_mode = None, None        # (shipped objects are shared: every history starts from an unused object)
+                mode = 'HEOS'
+                bad = None
+                for step in hist:
+                    if step == 'R':
+                        cu.backend_use_refprop(); mode = 'REFPROP'
+                        continue
+                    if step == 'C':
+                        cu.backend_use_coolprop(); mode = 'HEOS'
+                        continue
+                    meth, _ = queries[step]
+                    o = core.call(getattr(a, meth), *(() if step == 'q3' else (T,)))
+                    ev += 1
+                    if mode == 'HEOS':
+                        nt += 1
+                        if not o.ok or abs(o.value - want[step]) > 1e-12 * abs(want[step]):
+                            bad = f'{meth} under CoolProp = {o.value if o.ok else o.brief()[:100]} but a fresh object gives {want[step]}'
+                            break
+                    elif not o.ok and o.kind != 'CalculationError':
+                        bad = f'{meth} while the unavailable backend is selected {o.brief()[:120]}'
+                        break
+                if bad is None:
+                    cu.backend_use_coolprop()
+                    for step, (meth, _) in queries.items():
+                        o = core.call(getattr(a, meth), *(() if step == 'q3' else (T,)))
+                        ev += 1
+                        nt += 1
+                        if not o.ok or abs(o.value - want[step]) > 1e-12 * abs(want[step]):
+                            bad = f'after the history, back on CoolProp: {meth} = {o.value if o.ok else o.brief()[:100]} but a fresh object gives {want[step]}'
+                            break
+                if bad:
+                    ctx.violate(core.make_violation({'check': 'backend-switch-history', 'adsorbate': kname.split(',')[0]},
+                                                    f'[{kname}] history {list(hist)} (R = backend_use_refprop, C = backend_use_coolprop): {bad}', {'history': list(hist), 'kind': kname}))
+                    break
+    finally:
+        cu.backend_use_coolprop()
+        for a in pygaps.ADSORBATE_LIST:
+            if getattr(a, '_backend_mode', None) == 'REFPROP':
+                a._state, a._backend_mode = None, None
+    ctx.add('backend_switch_histories', ev, nt)
+
+
+def check_overwrite_removed(ctx):
+    """adsorbate_to_db(overwrite=True) replaces ALL fields: a property the new definition no longer carries is gone after a reload."""
+    import pygaps
+    from pygaps.parsing import sqlite as q
+    from mc import ref_store as rs
+    ev = nt = 0
+    base = list(pygaps.ADSORBATE_LIST)
+    work = os.path.join(core.scratch(), 'c20-ow.db')
+    full = dict(formula='X_{2}', molar_mass=44.0, saturation_pressure=6.0e6, enthalpy_liquefaction=10.3, p_triple=5.2, backend_name='CarbonDioxide')
+    try:
+        for start in ('schema only', 'copy of the packaged database'):
+            for removed in (['saturation_pressure'], ['enthalpy_liquefaction', 'p_triple'], ['backend_name'], ['formula', 'molar_mass'], list(full)):
+                pygaps.ADSORBATE_LIST[:] = base
+                if start == 'schema only':
+                    rs.create_template(work)
+                else:
+                    shutil.copyfile(str(pygaps.DATABASE), work)
+                first = pygaps.Adsorbate('c20-ow', alias=['ow'], **full)
+                kept = {k: v for k, v in full.items() if k not in removed}
+                second = pygaps.Adsorbate('c20-ow', alias=['ow'], **kept)
+                o1 = core.call(q.adsorbate_to_db, first, db_path=work, verbose=False)
+                o2 = core.call(q.adsorbate_to_db, second, db_path=work, overwrite=True, verbose=False)
+                pygaps.ADSORBATE_LIST[:] = base
+                got = core.call(q.adsorbates_from_db, db_path=work, verbose=False)
+                ev += 1
+                if not (o1.ok and o2.ok and got.ok):
+                    ctx.violate(core.make_violation({'check': 'overwrite-removed-property', 'what': 'raises'},
+                                                    f'[{start}] upload / overwrite / reload: {[x.brief()[:80] for x in (o1, o2, got) if not x.ok]}', {'removed': removed}))
+                    continue
+                nt += 1
+                re_ = [a for a in got.value if a.name == 'c20-ow']
+                props = {k: v for k, v in (re_[0].properties if re_ else {}).items()}
+                left = [k for k in removed if k in props]
+                wrong = [k for k, v in kept.items() if props.get(k) != v]
+                if len(re_) != 1 or left or wrong:
+                    ctx.violate(core.make_violation({'check': 'overwrite-removed-property', 'what': 'left behind' if left else 'wrong'},
+                                                    f'[{start}] adsorbate stored with {sorted(full)}, overwritten by a definition without {removed}: after reloading the file '
+                                                    f'{"it still has " + str({k: props[k] for k in left}) if left else "properties " + str(wrong) + " differ"}', {'removed': removed}, kept, props))
+    finally:
+        pygaps.ADSORBATE_LIST[:] = base
+    ctx.add('overwrite_removed_property', ev, nt)
+
+
 def run(ctx):
     import pygaps
     check_registry(ctx)
@@ -480,6 +597,8 @@ def run(ctx):
     check_fallback(ctx)
     check_copies(ctx)
     check_replacement(ctx)
+    check_backend_switch(ctx)
+    check_overwrite_removed(ctx)
     ctx.require('shipped_adsorbates', ctx.cov['shipped_adsorbates'], 170)
     ctx.require('backend_linked', len(backends), 75)
     ctx.cov['rule'] = ('every shipped adsorbate x name and every alias x {as is, lower, UPPER, Title, sWAPCASE} through Adsorbate.find and the isotherm constructor; json vs packaged db; '
